@@ -130,6 +130,11 @@ func VH_C17_single() {
 		m = &c17Mon{p: vPayload("p"), x: c17Payload("x")}
 	}
 	n := c17Build(m)
+	if vNondet[bool]("withRetryBudget") {
+		// retry settings do not change what a (succeeding) exec receives
+		vCover("with-retry-budget")
+		n.WithMaxRetries(3)
+	}
 	act, err := Run(vNewCtx(), n, NewSharedStore())
 	if err == nil && act == "done" && m.execSeen && m.postSeen {
 		vCover("ran")
